@@ -34,6 +34,7 @@ class Obligation:
     defines: list = field(default_factory=list)
     srcs: list = field(default_factory=list)        # real units (relative to /repo) linked in
     stubs: list = field(default_factory=list)       # files under /verif/stubs linked in
+    incdirs: list = field(default_factory=list)     # extra include dirs (relative to /verif) searched FIRST, e.g. stubs/uthash_model
     unwind: int = 2
     unwindset: list = field(default_factory=list)
     timeout: int = 600
@@ -88,8 +89,9 @@ def gen_headers(gen):
     open(os.path.join(gen, "config.h"), "w").write(cfg)
 
 
-def include_flags(gen):
-    return ["-I" + gen,
+def include_flags(gen, ob=None):
+    first = ["-I" + os.path.join(VERIF, d) for d in (ob.incdirs if ob is not None else [])]
+    return first + ["-I" + gen,
             "-I" + os.path.join(VERIF, "include"),
             "-I" + os.path.join(VERIF, "stubs"),
             "-I" + os.path.join(VERIF, "harness"),
@@ -134,7 +136,7 @@ def run(cmd, timeout, cwd=None, mem_gb=16, env=None, stdout_file=None):
 
 
 def goto_compile(sc, ob, workdir, witness):
-    inc = include_flags(sc.gen)
+    inc = include_flags(sc.gen, ob)
     defs = ["-D" + d for d in ob.defines] + (["-DWITNESS"] if witness else [])
     objs = []
     units = [os.path.join(VERIF, "harness", ob.harness)] + \
@@ -247,7 +249,7 @@ def signed(v, bits):
 def native_replay(sc, ob, vals, workdir):
     """Compile the same harness natively (-DREPLAY, ASan+UBSan) with the real units and run it.
     Returns (status, detail): status in reproduced / not-reproduced / assume-failed / build-failed."""
-    inc = include_flags(sc.gen)
+    inc = include_flags(sc.gen, ob)
     hpath = os.path.join(VERIF, "harness", ob.harness)
     # The replay loader is appended to the harness TU so it sees struct inputs.
     tu = os.path.join(workdir, "replay_tu.c")
@@ -286,6 +288,8 @@ def classify(prop):
     """Kind of a CBMC property id/description."""
     pid = prop.get("property", "")
     d = prop.get("description", "")
+    if ".no-body." in pid:
+        return "nobody"
     if ".unwind." in pid or "unwinding assertion" in d or ".recursion" in pid or "recursion unwinding" in d:
         return "unwind"
     if "pointer_arithmetic" in pid or "pointer arithmetic" in d or "pointer relation" in d:
@@ -345,6 +349,11 @@ def run_obligation(sc, ob, prop_id):
     undecided = [p for p in pr["results"] if p.get("status") not in ("SUCCESS", "FAILURE")]
     r.n_ok = sum(1 for p in pr["results"] if p.get("status") == "SUCCESS")
     unwind_f = [p for p in fails if classify(p) == "unwind"]
+    nobody_f = [p for p in fails if classify(p) == "nobody"]
+    if nobody_f:
+        r.status = "inconclusive"
+        r.detail = "functions without a body reached (model missing): " + ", ".join(p.get("property", "") for p in nobody_f[:8])
+        return r
     ptr_f = [p for p in fails if classify(p) == "ptr-overflow"]
     real_f = [p for p in fails if classify(p) == "assert"]
     r.failed = [(p.get("property"), p.get("description"), p.get("sourceLocation", {}).get("file", "") + ":" +
@@ -402,7 +411,7 @@ def run_obligation(sc, ob, prop_id):
                 r.replay_path = os.path.join(rp_dir, "%s-%s.json" % (re.sub(r"[^A-Za-z0-9_.-]", "_", ob.name), h))
                 json.dump({"property_id": prop_id, "obligation": ob.name, "harness": ob.harness,
                            "defines": ob.defines, "srcs": ob.srcs, "stubs": ob.stubs,
-                           "native_cflags": ob.native_cflags, "replay_hang_ok": ob.replay_hang_ok,
+                           "native_cflags": ob.native_cflags, "incdirs": ob.incdirs, "replay_hang_ok": ob.replay_hang_ok,
                            "failed_assertion": p.get("description"),
                            "cbmc_property": p.get("property"), "inputs": vals,
                            "native_output": det[-1500:]}, open(r.replay_path, "w"), indent=1)
@@ -643,7 +652,7 @@ def replay_file(sc, path):
     d = json.load(open(path))
     ob = Obligation(name=d["obligation"], harness=d["harness"], defines=d.get("defines", []),
                     srcs=d.get("srcs", []), stubs=d.get("stubs", []),
-                    native_cflags=d.get("native_cflags", []), replay_hang_ok=d.get("replay_hang_ok", False))
+                    native_cflags=d.get("native_cflags", []), incdirs=d.get("incdirs", []), replay_hang_ok=d.get("replay_hang_ok", False))
     st, det = native_replay(sc, ob, d["inputs"], sc.sub("replay"))
     print(det)
     print("REPLAY %s: %s" % (path, st))
